@@ -24,7 +24,7 @@
    counts of a request (`req_pairs`) are, for explicit sets, the counts over
    G.edges(); theorem C06_req_pairs_are_ordered_pair_counts (handshake lemma) shows
    they are the order-free numbers of ordered adjacent S-S, S-I, I-I pairs. *)
-From EoNV Require Import Prelude Graph Aux Vec IC Wrappers VecP ICP ICHand Rhs ICConserve.
+From EoNV Require Import Prelude Graph Aux Vec IC Wrappers VecP ICP ICHand ICPair Rhs ICConserve.
 
 (* ---------- non-vacuity of the hypotheses ---------- *)
 Example C06_wf_example :
@@ -100,6 +100,38 @@ Theorem accepts_SIR_homogeneous_meanfield_from_graph_refuted :
                forall sv, SIR_homogeneous_meanfield_from_graph g rq sv = Err TypeErr.
 Proof. exact accepts_SIR_hmf_refuted. Qed.
 Print Assumptions accepts_SIR_homogeneous_meanfield_from_graph_refuted.
+
+(* homogeneous pairwise.  _partial: acceptance is NOT proved - the statement is "if the wrapper returns, row 0 is the
+   request"; missing: the guard SS0 + 2 SI0 <= n N never fires on a consistent request in exact arithmetic (it does fire in
+   floating point: known finding accept:EoNError/II0=1).  FULL statement: as for the other wrappers, with
+   `exists out, ... = Ok out`; and II(0) == pII (req_pairs g rq), here only II(0) == sum of degrees - SS - 2 SI. *)
+Theorem row0_SIS_homogeneous_pairwise_from_graph_partial :
+  forall g rq full sv out, wf_ugraph g = true -> wf_req g false rq = true -> solver_ok sv ->
+  SIS_homogeneous_pairwise_from_graph g rq full sv = Ok out ->
+  exists S I, lookup nS out = Some (Sc S) /\ lookup nI out = Some (Sc I) /\
+    S 0%nat == reqS_n g rq /\ I 0%nat == reqI_n g rq /\
+    (full = true -> exists SI SS II, lookup nSI out = Some (Sc SI) /\ lookup nSS out = Some (Sc SS) /\ lookup nII out = Some (Sc II) /\
+       SI 0%nat == pSI (req_pairs g rq) /\ SS 0%nat == pSS (req_pairs g rq) /\
+       II 0%nat == degsum g - pSS (req_pairs g rq) - 2 * pSI (req_pairs g rq)).
+Proof. exact row0_SIS_hpw. Qed.
+Print Assumptions row0_SIS_homogeneous_pairwise_from_graph_partial.
+Theorem row0_SIR_homogeneous_pairwise_from_graph_partial :
+  forall g rq full sv out, wf_ugraph g = true -> wf_req g true rq = true -> solver_ok sv ->
+  SIR_homogeneous_pairwise_from_graph g rq full sv = Ok out ->
+  exists S I R, lookup nS out = Some (Sc S) /\ lookup nI out = Some (Sc I) /\ lookup nR out = Some (Sc R) /\
+    S 0%nat == reqS_n g rq /\ I 0%nat == reqI_n g rq /\ R 0%nat == reqR_n g rq /\
+    (full = true -> exists SI SS, lookup nSI out = Some (Sc SI) /\ lookup nSS out = Some (Sc SS) /\
+       SI 0%nat == pSI (req_pairs g rq) /\ SS 0%nat == pSS (req_pairs g rq)).
+Proof. exact row0_SIR_hpw. Qed.
+Print Assumptions row0_SIR_homogeneous_pairwise_from_graph_partial.
+(* the hypothesis "returns" is satisfiable: *)
+Example C06_hpw_returns :
+  exists out, SIR_homogeneous_pairwise_from_graph path3 (mkReq (Some [0%N]) (Some [2%N]) None) true const_solver = Ok out.
+Proof. eexists. vm_compute. reflexivity. Qed.
+Print Assumptions C06_hpw_returns.
+Theorem C06_mean_degree_times_N_is_degree_sum : forall g, wf_ugraph g = true -> mean_degree g * gN g == degsum g.
+Proof. exact mean_degree_N. Qed.
+Print Assumptions C06_mean_degree_times_N_is_degree_sum.
 
 Theorem row0_SIS_heterogeneous_meanfield_from_graph :
   forall g rq full sv, wf_ugraph g = true -> wf_req g false rq = true -> solver_ok sv ->
